@@ -2,6 +2,8 @@ import CnbVerif.Props.C19
 #print axioms CnbVerif.C19.chunk_independent
 #print axioms CnbVerif.C19.output_spec
 #print axioms CnbVerif.C19.tee_full_input
+#print axioms CnbVerif.C19.tee_full_input_short_writes
+#print axioms CnbVerif.C19.mapped_output_short_writes
 #print axioms CnbVerif.C19.unfixed_drop_violates_spec
 #print axioms CnbVerif.C19.copier_threads_spawned_before_joined
 #print axioms CnbVerif.C19.progress
